@@ -52,6 +52,12 @@ HAND = [
                           {"type": "object", "required": ["B"], "properties": {"B": {"type": "integer", "minimum": 3}}, "additionalProperties": False}]},
      "Name": {"type": "string", "maxLength": 8}, "Colour": {"type": "string", "enum": ["red", "green"]},
      "Plain": {"type": "string"}, "Count": {"type": "integer", "minimum": 3}}}),
+ # two definitions whose keys give ONE type name (two schema files sharing a definition, merged): a replacement for that name
+ # covers both
+ ("same-name", {"title": "Root", "type": "object", "properties": {"a": _ref("Timestamp"), "b": _ref("timestamp")},
+   "definitions": {"Timestamp": {"type": "object", "properties": {"secs": {"type": "integer"}}},
+                   "timestamp": {"type": "object", "properties": {"secs": {"type": "integer"}}},
+                   "Event": {"type": "object", "properties": {"at": _ref("Timestamp"), "until": _ref("timestamp")}}}}),
  # a member inherited through allOf and declared again (to make it required, to document it): the two declarations refer to the
  # same definition and differ in annotations at most; the definitions are of kinds a merge does not reproduce literally
  ("redeclare", {"title": "Root", "type": "object", "properties": {"d": _ref("Derived"), "e": _ref("Derived2"), "f": _ref("Derived3")},
@@ -257,13 +263,20 @@ def draw_plans(rng, tag, doc, base, n, thorough):
         if m: st["map_type"] = m
         return st
     kinds = ["orth", "replace", "convert", "patch"]
+    hand = tag.startswith("hand:")
+    if hand:
+        # hand-written documents: every definition replaced, every named type patched (renamed AND given derives), in turn
+        seq = ["orth"] + ["replace"] * len(rep_c) + ["patch"] * len(patch_c) + ["convert"] * min(len(conv_c), max(4, n // 4)) + ["orth"]
+        n = len(seq)
+    ri = pi = 0
     for k in range(n):
-        kind = kinds[k % 4]
+        kind = seq[k] if hand else kinds[k % 4]
         compilable = rng.random() < 0.6
         st = orth(compilable)
         if kind == "replace" and rep_c:
             # hand-written documents: every definition in turn; otherwise a random one
-            dn, tn = rep_c[(k // 4) % len(rep_c)] if tag.startswith("hand:") else rng.choice(rep_c)
+            dn, tn = rep_c[ri % len(rep_c)] if hand else rng.choice(rep_c)
+            ri += 1
             path, impls, comp = rng.choice([r for r in REPLACEMENTS if r[2] or not compilable])
             st["replace"] = [{"name": tn, "replace": path, "impls": impls}]
             plans.append(Plan("%s/replace:%s" % (tag, dn), doc, st, "replace", {"def": dn, "name": tn, "path": path, "impls": impls}, compilable and comp))
@@ -281,12 +294,14 @@ def draw_plans(rng, tag, doc, base, n, thorough):
             st["convert"] = [{"schema": cs, "type": path, "impls": impls}]
             plans.append(Plan("%s/convert:%s" % (tag, ptr), doc, st, "convert", {"ptr": ptr, "schema": cs, "path": path}, compilable and comp))
         elif kind == "patch" and patch_c:
-            old = rng.choice(patch_c)
+            old = patch_c[pi % len(patch_c)] if hand else rng.choice(patch_c)
+            pi += 1
             new = "Px" + old + "Renamed"
             while new in nm: new += "X"
             tid = nm[old][0]
             leaf = not any(es[c]["kind"] in NAMED for c in reach(es, tid) - {tid})
-            mode = rng.choice(["rename", "both", "both", "derives"])
+            mode = "both" if hand else rng.choice(["rename", "both", "both", "derives"])
+            if hand and not leaf: compilable = False       # a derive on a type that contains other named types: syntactic half only
             pd = []
             if mode != "rename":
                 pd = ["PartialEq"] if (leaf or "PartialEq" in st.get("derives", [])) else (["Hash", "PartialEq"] if not compilable else [])
